@@ -16,6 +16,22 @@
    under strict causality or when the environment keeps its action, and after
    it when the environment keeps its action.
 
+   Proved for the model composed with the GENERATED solve_rabin_game (fuel >=
+   number of valuations, all four modes; GenProofs/RabinIter1.v establishes the
+   structure of the recorded iterates zk, yki, xkijr by invariants of the
+   translated loops): (d) CLOSURE - whenever the environment keeps its
+   action, every step the synthesized action allows leads to a valuation of
+   the winning region (last iterate), from ANY source valuation and memory;
+   hence every state reached from a winning one is winning
+   (C05_region_closed, C05_reachable_states_winning); (e) LIVENESS - every
+   infinite closed-loop behaviour in which the environment keeps its action
+   eventually stays inside ONE persistence predicate and visits EVERY
+   recurrence predicate infinitely often (C05_liveness; no assumption on the
+   initial memory is needed, so it covers the admitted initial states
+   _goal = 0, _hold = none; uses Classical_Prop.classic through
+   L4/LiveLemma.v).  The two blocking defects below therefore only ever end a
+   behaviour; they cannot make an infinite behaviour violate the condition.
+
    REFUTED on the faithful model (and reproduced on the real code, DESIGN §7
    F3, F12): "never reaches a state in which the synthesized action allows no
    step although the specification still obliges the component to move".
@@ -32,7 +48,7 @@ Import ListNotations.
 From Omega Require Import L4.Arena L4.Kleene L4.Tables.
 From OmegaGen Require Import FixpointGen Gr1Gen TransducerGen.
 From OmegaGP Require Import TransducerModel TransducerBridge StreettTProofs RabinTProofs
-  RabinTProofs2.
+  RabinTProofs2 StreettNB2 StreettClosure1 RabinClosure2 RabinLive2.
 Local Open Scope bool_scope.
 
 Theorem C05_construction_is_translated :
@@ -82,6 +98,83 @@ Theorem C05_memory_in_range : forall moore plus_one zk yki xkijr,
   (plus_one = true -> rh H G v <= length holds /\ rg H G v <= length goals - 1).
 Proof. exact (rabin_memory_range nc nx ny H G E S holds goals). Qed.
 End C05.
+
+(* (d) closure: an allowed step in which the environment keeps its action
+   reaches a valuation of the winning region (the last iterate zk[-1]).  No
+   hypothesis on the source valuation or on the memory is needed. *)
+Theorem C05_region_closed :
+  forall nc nx ny (E S : bdd) (holds goals : list bdd) (moore plus_one : bool) fuel H G v,
+  NV nc nx ny <= fuel -> Forall spred holds -> Forall spred goals ->
+  let sol := Gr1Gen.solve_rabin_game nc nx ny E S holds goals moore plus_one fuel in
+  let L := lift nc nx ny (H * G) in
+  let A := rabin_action nc nx ny H G (L E) (L S) (map L holds) (map L goals) moore plus_one
+             (map L (fst (fst sol))) (map (map L) (snd (fst sol)))
+             (map (map (map (map L))) (snd sol)) in
+  inr nc nx (ny * (H * G)) v ->
+  A v = true ->           (* an allowed step ... *)
+  L E v = true ->         (* ... in which the environment keeps its action *)
+  last (fst (fst sol)) bfalse (bv (H * G) (nextpt v)) = true.  (* ... reaches a winning valuation *)
+Proof.
+  intros nc nx ny E S holds goals moore plus_one fuel H G v Hf Sh Sg sol L A.
+  exact (rabin_impl_closed nc nx ny E S holds goals moore plus_one H G fuel Hf Sh Sg v).
+Qed.
+
+Theorem C05_reachable_states_winning :
+  forall nc nx ny (E S : bdd) (holds goals : list bdd) (moore plus_one : bool) fuel H G
+         c x ye x' ye',
+  NV nc nx ny <= fuel -> Forall spred holds -> Forall spred goals ->
+  c < nc -> x < nx -> ye < ny * (H * G) ->
+  rreach nc nx ny E S holds goals moore plus_one H G fuel c x ye x' ye' ->
+  last (fst (fst (Gr1Gen.solve_rabin_game nc nx ny E S holds goals moore plus_one fuel))) bfalse
+    (rst_of H G c x ye) = true ->
+  x' < nx /\ ye' < ny * (H * G) /\
+  last (fst (fst (Gr1Gen.solve_rabin_game nc nx ny E S holds goals moore plus_one fuel))) bfalse
+    (rst_of H G c x' ye') = true.
+Proof.
+  intros nc nx ny E S holds goals moore plus_one fuel H G c x ye x' ye' Hf Sh Sg.
+  exact (rabin_impl_reachable_winning nc nx ny E S holds goals moore plus_one H G fuel
+           Hf Sh Sg c x ye x' ye').
+Qed.
+
+(* (e) liveness: every infinite behaviour (each step allowed by the
+   synthesized action, the environment keeping its action, consecutive steps
+   linked) satisfies the Rabin(1) condition, whatever the initial memory *)
+Theorem C05_liveness :
+  forall nc nx ny (E S : bdd) (holds goals : list bdd) (moore plus_one : bool) fuel H G
+         (sigma : nat -> V),
+  NV nc nx ny <= fuel -> Forall spred holds -> Forall spred goals ->
+  rbehaviour nc nx ny E S holds goals moore plus_one H G fuel sigma ->
+  (* persistence: ONE <>[] predicate holds from some point on *)
+  (exists P, In P holds /\ exists N, forall i, N <= i -> P (bv (H * G) (sigma i)) = true) /\
+  (* recurrence: EVERY []<> predicate holds infinitely often *)
+  (forall j R, nth_error goals j = Some R ->
+     forall N, exists i, N <= i /\ R (bv (H * G) (sigma i)) = true).
+Proof.
+  intros nc nx ny E S holds goals moore plus_one fuel H G sigma Hf Sh Sg Hb.
+  exact (rabin_impl_live nc nx ny E S holds goals moore plus_one H G Sh fuel Hf Sg sigma Hb).
+Qed.
+
+(* non-vacuity: a game with an infinite behaviour of the synthesized
+   implementation (a self-loop at a state of the goal, persistence index 0
+   chosen, environment action TRUE); the hypotheses of the three theorems
+   above are satisfiable *)
+Example C05_liveness_example :
+  let E : bdd := fun v => true in
+  let S : bdd := fun v => Nat.eqb (vyp v) (vy v) in
+  let P : bdd := fun v => true in
+  let R : bdd := fun v => true in
+  let sigma : nat -> V := fun _ => mkV 0 0 0 0 0 in
+  NV 1 1 2 <= 5 /\ Forall spred [P] /\ Forall spred [R] /\
+  rbehaviour 1 1 2 E S [P] [R] false false 2 1 5 sigma /\
+  last (fst (fst (Gr1Gen.solve_rabin_game 1 1 2 E S [P] [R] false false 5))) bfalse
+    (rst_of 2 1 0 0 0) = true.
+Proof.
+  cbv zeta. split; [vm_compute; repeat constructor|].
+  split; [repeat constructor; intros v; reflexivity|].
+  split; [repeat constructor; intros v; reflexivity|].
+  split; [|vm_compute; reflexivity].
+  constructor; intros i; vm_compute; repeat split.
+Qed.
 
 Section Refuted_dead_end.
 Let E := of_table2 1 2 2 [(bitsN 4 15%N);
@@ -177,5 +270,9 @@ Print Assumptions C05_construction_is_translated.
 Print Assumptions C05_refines_component_action.
 Print Assumptions C05_moore_independent_of_next_env.
 Print Assumptions C05_memory_in_range.
+Print Assumptions C05_region_closed.
+Print Assumptions C05_reachable_states_winning.
+Print Assumptions C05_liveness.
+Print Assumptions C05_liveness_example.
 Print Assumptions C05_refuted_dead_end.
 Print Assumptions C05_refuted_stale_hold.
